@@ -1,10 +1,30 @@
 #!/bin/bash
-# Self-tests of the machinery (run by setup.sh): the pinned suite on the instrumented copy.
+# Self-tests of the machinery (run by setup.sh; also usable on their own):
+#  1. the pinned suite passes on the instrumented copy with no simulator attached
+#  2. race-detector transparency: clean workload and locked toy give 0 reports, racy toy is reported
+#  3. determinism: record run == replay run, and identical logs across processes / GOMAXPROCS / builds
 set -e
 VERIF=$(cd "$(dirname "$0")" && pwd)
+REPO=${VERIF_REPO:-/repo}
+N=${SELFTEST_RUNS:-40}
 export GOFLAGS=-mod=mod GOPROXY=off GOSUMDB=off GOTOOLCHAIN=local
 S=$(mktemp -d "${TMPDIR:-/tmp}/verif-self-XXXXXX"); trap 'rm -rf "$S"' EXIT
-mkdir -p "$S/safehtml"; rsync -a --exclude .git /repo/ "$S/safehtml/"; cp -r "$VERIF/sim/simrt" "$S/safehtml/simrt"
-(cd "$S/safehtml" && "$VERIF/bin/instrument" -dir . -pkg ./template >/dev/null)
-echo "selftest: pinned suite on the instrumented copy (no simulator attached)"
+mkdir -p "$S/safehtml" "$S/harness"; rsync -a --exclude .git "$REPO/" "$S/safehtml/"; cp -r "$VERIF/sim/simrt" "$S/safehtml/simrt"
+python3 "$VERIF/sim/cf_patch.py" "$S/safehtml" >/dev/null
+(cd "$S/safehtml" && "$VERIF/bin/instrument" -dir . -pkg ./template -tags verif >/dev/null)
+echo "selftest 1: pinned suite on the instrumented copy (no simulator attached)"
 (cd "$S/safehtml" && go test -trimpath -tags verif -overlay "$VERIF/build/overlay/overlay.json" -vet=off -count=1 ./... 2>&1 | grep -v "no test files")
+cp "$VERIF"/sim/harness/*.go "$S/harness/"; sed "s#@SAFEHTML@#$S/safehtml#" "$VERIF/sim/harness/go.mod.tmpl" > "$S/harness/go.mod"; cp "$REPO/go.sum" "$S/harness/go.sum"
+(cd "$S/harness" && go build -trimpath -tags verif -overlay "$VERIF/build/overlay/overlay.json" -o "$S/simharness" . && go build -race -trimpath -tags verif -overlay "$VERIF/build/overlay/overlay_race.json" -o "$S/simharness.race" .)
+echo "selftest 2: race-detector transparency"
+GORACE="halt_on_error=0 exitcode=0 log_path=$S/race.toy" "$S/simharness.race" -selftest racetoy
+echo "selftest 3: determinism ($N runs per property; GOMAXPROCS 1, 4, 16; race build for C09)"
+for p in C05 C06 C07 C08 C09; do
+  for g in 1 4 16; do
+    GOMAXPROCS=$g "$S/simharness" -selftest determinism -prop $p -from 0 -to $N > "$S/det.$p.$g" || { echo "selftest: record/replay mismatch for $p (GOMAXPROCS=$g)"; grep MISMATCH "$S/det.$p.$g" | head -5; exit 2; }
+  done
+  cmp -s "$S/det.$p.1" "$S/det.$p.4" && cmp -s "$S/det.$p.1" "$S/det.$p.16" || { echo "selftest: event logs of $p differ between processes"; diff "$S/det.$p.1" "$S/det.$p.16" | head -5; exit 2; }
+done
+GOMAXPROCS=4 GORACE="halt_on_error=0 exitcode=0 log_path=$S/race.det" "$S/simharness.race" -selftest determinism -prop C09 -from 0 -to $N > "$S/det.C09.race" || { echo "selftest: race build record/replay mismatch"; exit 2; }
+cmp -s "$S/det.C09.1" "$S/det.C09.race" || { echo "selftest: race build and plain build disagree on C09 event logs"; diff "$S/det.C09.1" "$S/det.C09.race" | head -5; exit 2; }
+echo "selftest: all passed"
